@@ -1052,6 +1052,19 @@ def ITE(c: Any, a: Any, b: Any) -> Any:
 
 def smax(*a: Any, **k: Any) -> Any:
     """max() that merges (If term) on proxies; builtin on concrete values."""
+    if k.get("key") is not None:
+        # selection by key: decided by (possibly forking) comparisons, first extremal element wins like the builtin
+        items = list(a[0]) if len(a) == 1 else list(a)
+        if not items:
+            if "default" in k:
+                return k["default"]
+            raise ValueError("max() arg is an empty sequence")
+        r, kr = items[0], k["key"](items[0])
+        for b in items[1:]:
+            kb = k["key"](b)
+            if kb > kr:
+                r, kr = b, kb
+        return r
     if len(a) == 1 and not k:
         a = tuple(a[0])
     elif len(a) == 1 and "default" in k:
@@ -1068,6 +1081,19 @@ def smax(*a: Any, **k: Any) -> Any:
 
 
 def smin(*a: Any, **k: Any) -> Any:
+    if k.get("key") is not None:
+        # selection by key: decided by (possibly forking) comparisons, first extremal element wins like the builtin
+        items = list(a[0]) if len(a) == 1 else list(a)
+        if not items:
+            if "default" in k:
+                return k["default"]
+            raise ValueError("min() arg is an empty sequence")
+        r, kr = items[0], k["key"](items[0])
+        for b in items[1:]:
+            kb = k["key"](b)
+            if kb < kr:
+                r, kr = b, kb
+        return r
     if len(a) == 1 and not k:
         a = tuple(a[0])
     elif len(a) == 1 and "default" in k:
